@@ -23,6 +23,8 @@ PARTIAL = [
     "inhabited); on the implementation this link is exercised by the two-endpoint oracle;",
     "NOT proved, explored by the oracles: the stream state machine's classification of HEADERS frames (head / interim / trailers) end to end, "
     "scheduling fairness / progress (stalls are not C01), header-field content through HPACK (model frames carry abstract field lists);",
+    "the receive-side model (pending_recv queue, poll_*) has an executable checker (check_recvpath) but no hook projection yet: it is tied "
+    "to the code by the two-endpoint oracle only (delivery order, exactly-once, clean end / error at the API), not by a lock-step;",
     "tie to the code: lock-step replay of hook events through Model/DataPath.v inside Coq (bodies regenerated from stream/offset/length, "
     "wire digests compared), plus the C01 oracle on two real endpoints joined by scripted pipes (bin `pair`) and the wire-contiguity oracle",
 ]
